@@ -67,6 +67,7 @@ def mk_classes(fam):
 
 
 FILE_CLASSES = ["base", "sub", "sibling", "subsub"]
+BLANK = 9
 
 
 def file_class(F, which, cache={}):
@@ -92,7 +93,8 @@ def build(fam, seq, types=None, route="append", fcls="base"):
     F = file_class(F, fcls)
     ph = Dflt(data="")
     data = D(ph)
-    mk = lambda c, vals: classes[c](data=[codec.dec_val(v) for v in vals])
+    # class id 9: a blank default element (what heads every container; free to occur anywhere else as well)
+    mk = lambda c, vals: Dflt(data="") if c == BLANK else classes[c](data=[codec.dec_val(v) for v in vals])
     if route == "remove_sole_first":
         data.remove(ph)  # removing the sole element leaves the chain as it is
         getattr(data, {"register": "remove_registers_of_type", "block": "remove_blocks_of_type", "section": "remove_sections_of_type"}[fam])(Dflt)
@@ -271,8 +273,16 @@ def random_pair(rng):
     fam = rng.choice(FAMILIES)
     n = rng.randrange(1, 9)
     a = rand_seq(rng, n)
-    rel = rng.choice(["equal", "one_changed", "class_only", "subclass_swap", "prefix", "extension", "foreign", "independent"])
+    rel = rng.choice(["equal", "one_changed", "class_only", "subclass_swap", "prefix", "extension", "foreign", "independent", "blank_extra", "blank_both"])
     b, fk = [list(x) for x in json.loads(json.dumps(a))], None
+    if rel == "blank_extra":
+        # the same sequence with one more BLANK default element, at the end or somewhere inside: one element
+        # more is a different file, however little that element would write
+        b.insert(rng.choice([len(b), rng.randrange(0, len(b) + 1)]), [BLANK, []])
+    if rel == "blank_both":
+        i = rng.randrange(0, n + 1)
+        a.insert(i, [BLANK, []])
+        b.insert(i, [BLANK, []])
     if rel == "one_changed":
         i = rng.randrange(n)
         if b[i][1]:
